@@ -287,7 +287,7 @@ func c06RefusedScenario(kind string) *explore.Scenario {
 			vx.Quiesce()
 			got := false
 			for _, l := range vc.Lines() {
-				if l == "PONG :sync" {
+				if NormLine(l) == "PONG :sync" {
 					got = true
 				}
 			}
